@@ -16,7 +16,7 @@ EXPLANATION = ("The real up/down converter (with LiteX StrideConverter/SyncFIFO 
 
 
 def conv_bench(name, user_dw, native_dw, mode="both", reverse=False, aw_native=4, stub_depth=3, qdepth=3, lane=None,
-               others_zero=False):
+               others_zero=False, ascending=False):
     ratio_down = user_dw // native_dw if user_dw > native_dw else 0
     ratio_up = native_dw // user_dw if native_dw > user_dw else 0
     if ratio_down:
@@ -58,7 +58,8 @@ def conv_bench(name, user_dw, native_dw, mode="both", reverse=False, aw_native=4
     with_w = mode in ("both", "write")
     with_r = mode in ("both", "read")
     stub = memstub.NativeMemStub(pn, wa, wl, mem, depth=stub_depth, with_write=with_w, with_read=with_r)
-    env = memstub.NativeUserEnv(pu, UA, UL, ref, qdepth=qdepth, with_write=with_w, with_read=with_r)
+    env = memstub.NativeUserEnv(pu, UA, UL, ref, qdepth=qdepth, with_write=with_w, with_read=with_r,
+                                ascending_bits=log2_int(ratio_up) if (ascending and ratio_up) else 0)
     top.submodules.stub, top.submodules.env = stub, env
     inputs = dict(env.inputs)
     inputs.update(stub.inputs)
@@ -112,20 +113,19 @@ def conv_bench(name, user_dw, native_dw, mode="both", reverse=False, aw_native=4
 
 CONFIGS = {
     # name: (kwargs, Kq, Kt, tiers)
-    "down_2to1": (dict(user_dw=32, native_dw=16), 22, 34, "qt"),
-    "down_4to1_reverse": (dict(user_dw=32, native_dw=8, reverse=True), 22, 34, "qt"),
-    "up_1to2": (dict(user_dw=8, native_dw=16), 22, 32, "qt"),
-    "up_1to4": (dict(user_dw=8, native_dw=32), 22, 32, "qt"),
-    "up_1to2_read": (dict(user_dw=8, native_dw=16, mode="read"), 0, 30, "t"),
-    "up_1to2_write": (dict(user_dw=8, native_dw=16, mode="write"), 0, 30, "t"),
-    "up_1to2_reverse": (dict(user_dw=16, native_dw=32, reverse=True), 0, 30, "t"),
-    "down_8to1": (dict(user_dw=64, native_dw=8), 0, 36, "t"),
-    "up_1to8": (dict(user_dw=8, native_dw=64, aw_native=3), 0, 30, "t"),
-    "down_2to1_read": (dict(user_dw=16, native_dw=8, mode="read"), 0, 30, "t"),
+    "down_2to1": (dict(user_dw=32, native_dw=16), 17, 22, "qt"),
+    "down_4to1_reverse": (dict(user_dw=32, native_dw=8, reverse=True), 16, 24, "qt"),
+    "asc_up_1to2": (dict(user_dw=8, native_dw=16, ascending=True), 20, 24, "qt"),
+    "asc_up_1to4": (dict(user_dw=8, native_dw=32, ascending=True), 18, 24, "qt"),
+    "anyorder_up_1to2": (dict(user_dw=8, native_dw=16), 14, 22, "qt"),
+    "asc_up_1to2_read": (dict(user_dw=8, native_dw=16, mode="read", ascending=True), 0, 22, "t"),
+    "asc_up_1to2_write": (dict(user_dw=8, native_dw=16, mode="write", ascending=True), 0, 22, "t"),
+    "asc_up_1to2_reverse": (dict(user_dw=16, native_dw=32, reverse=True, ascending=True), 0, 22, "t"),
+    "down_8to1": (dict(user_dw=64, native_dw=8), 0, 22, "t"),
+    "down_2to1_read": (dict(user_dw=16, native_dw=8, mode="read"), 0, 22, "t"),
+    "anyorder_up_1to4": (dict(user_dw=8, native_dw=32), 0, 24, "t"),
 }
 BENCHES = {n: partial(conv_bench, n, **c[0]) for n, c in CONFIGS.items()}
-BENCHES["exp_down_2to1_lane0"] = partial(conv_bench, "exp_down_2to1_lane0", user_dw=32, native_dw=16, lane=0, others_zero=True)
-BENCHES["exp_down_2to1_lane0_nz"] = partial(conv_bench, "exp_down_2to1_lane0_nz", user_dw=32, native_dw=16, lane=0, others_zero=False)
 
 
 def run(ctx):
@@ -133,12 +133,14 @@ def run(ctx):
                "taken, one write-data beat in flight at a time; read data always accepted; <= 3 reads outstanding")
     ctx.assume("controller side: in-order memory with the real crossbar's contract (wdata.ready / rdata.valid are single "
                "pulses that do not wait for valid/ready), arbitrary stalls, response latency >= 2 cycles, <= 3 commands queued")
+    ctx.assume("'asc_' benches: consecutive same-direction commands inside one wide word use strictly ascending addresses; "
+               "'anyorder_' benches drop that restriction (known finding on the up-converter)")
     ctx.assume("address shift of crossbar.get_port(data_width=...) is covered by C06-style width bookkeeping, not here")
     for n, (c, kq, kt, tiers) in CONFIGS.items():
         if ctx.only and not ctx.only.search(n):
             continue
         if ctx.tier == "quick" and "q" in tiers:
-            ctx.add(n, kq, timeout=900)
+            ctx.add(n, kq, timeout=600, min_K=kq - 3, first_chunk=10, chunk=1, cover_required=False)
         elif ctx.tier == "thorough":
-            ctx.add(n, kt, timeout=3000)
+            ctx.add(n, kt, timeout=3300, min_K=(kq or 16) - 3, first_chunk=10, chunk=1, cover_required=False)
     ctx.run()
